@@ -210,6 +210,25 @@ def run_case(R, level, op, db, args):
     for w in (wp, wr):
         w.prime()
         w.seam.budget = 200 + 3 * len(db)
+    if args.get("before") and level != "v1":
+        # the path after a failure: the wrapper's (and, for the comparison, the raw
+        # client's) previous call was a bulk walk the device refused as tooBig, handled by
+        # the caller; the operation under test is an ordinary later call on the same object
+        from .. import ber as _ber
+
+        size = int(args["before"])
+        some_root = sorted(db)[0][:-1]
+        for w, through_wrapper in ((wp, True), (wr, False)):
+            w.agent.pdu_hook = lambda req, resp: dict(resp, error_status=1, error_index=0, varbinds=[]) if req["type"] == _ber.PDU_GETBULK else resp
+            try:
+                drive_agen(w.py.bulkwalk([oid_s(some_root)], bulk_size=size) if through_wrapper else w.client.bulkwalk([OID(some_root)], bulk_size=size), limit=10)
+            except Exception:  # noqa: BLE001 - refused, as arranged
+                pass
+            finally:
+                w.agent.pdu_hook = None
+            w.seam.reset(budget=200 + 3 * len(db))
+            w.agent.requests.clear()
+        R.mon["ops_after_a_refused_bulk_walk"] += 1
     try:
         rp = rig.outcome(lambda: do(op, wp, args, True))
         rr = rig.outcome(lambda: do(op, wr, args, False))
@@ -445,6 +464,10 @@ def run(R):
         db, args = gen_case(rng, op)
         args["leading_dot"] = rng.random() < 0.3
         args["again"] = rng.choice((None, "stop", "timeout"))
+        if i % 5 == 1 or (op == "bulkget" and i % 2):
+            args["before"] = rng.choice((2, 20))
+            if op == "bulkget":
+                args["maxrep"] = rng.choice((2, 6, 11, 14))
         if level == "v1":
             # v1 cannot carry Counter64
             db = {k: (v if v[0] != "c64" else ("c32", v[1] % 2**32)) for k, v in db.items()}
@@ -472,5 +495,5 @@ def replay(R, v):
             return bytes.fromhex(x[4:])
         return x
 
-    args = {k: (val if k in ("leading_dot", "again") else fix(val)) for k, val in c["args"].items()}
+    args = {k: (val if k in ("leading_dot", "again", "before") else fix(val)) for k, val in c["args"].items()}
     run_case(R, c["level"], c["op"], dec_db(c["db"]), args)
